@@ -63,6 +63,32 @@ pub fn compute_alive_vars(project: &Project) -> HashMap<Tid, BTreeSet<Variable>>
                             }
                         }
                     }
+                    // If a conditional jump is followed by a jump that is not a direct branch
+                    // (e.g. a conditional return or a conditional call without return site),
+                    // then the control flow may leave the function without a corresponding edge in the CFG.
+                    // So we have to handle the block like a dead end in the CFG.
+                    if let [_, second_jmp] = blk.term.jmps.as_slice() {
+                        match &second_jmp.term {
+                            Jmp::Branch(_) => (),
+                            Jmp::CallInd {
+                                target: expression, ..
+                            }
+                            | Jmp::BranchInd(expression)
+                            | Jmp::Return(expression)
+                            | Jmp::CBranch {
+                                condition: expression,
+                                ..
+                            } => {
+                                alive_vars.extend(all_physical_registers.iter().cloned());
+                                for input_var in expression.input_vars() {
+                                    alive_vars.insert(input_var.clone());
+                                }
+                            }
+                            Jmp::Call { .. } | Jmp::CallOther { .. } => {
+                                alive_vars.extend(all_physical_registers.iter().cloned());
+                            }
+                        }
+                    }
                     computation.set_node_value(node, NodeValue::Value(alive_vars))
                 }
             }
